@@ -89,6 +89,41 @@ def run(ctx):
                 if rng.random() < 0.3:
                     kw["date_formats"] = ["%Y-%m-%d"]
                 cases.append({"s": s, "kw": kw, "settings": dict(inv), "api": rng.choice(["ddp", "parse"]), "probe": False, "valid": False})
+    # ---- live parsers and look-alike settings: a parser made with valid settings stays alive while a call with the
+    # same settings in the wrong TYPE (str(value), repr, int for bool, float for int ...) is made - and rejected - and
+    # is then used again: no documented-only guarantee may be lost to an earlier rejected call
+    twins = []
+    if not ctx.replay:
+        from ..lib import list_to_dt
+
+        def look_alikes(k, v):
+            if k == "RELATIVE_BASE" and isinstance(v, list):
+                d = list_to_dt(v)
+                return [str(d), d.isoformat(), repr(d)]
+            if isinstance(v, bool):
+                return [str(v), int(v), str(v).lower()]
+            if isinstance(v, int):
+                return [str(v), float(v) + 0.0]
+            if isinstance(v, float):
+                return [str(v)]
+            if isinstance(v, str):
+                return [[v]]          # (another STRING for TIMEZONE would be an unresolvable zone name: outside the statement, see DESIGN 0.3)
+            if isinstance(v, list):
+                return [str(v), ",".join(map(str, v)), {x: 1 for x in map(str, v)}]
+            return [str(v)]
+        tpool = settings_pool(rng, 40 if ctx.quick() else 300) + [{"RELATIVE_BASE": [2020, 1, 1, 0, 0, 0, 0]}, {"CACHE_SIZE_LIMIT": 1000},
+                                                                  {"RELATIVE_BASE": [2021, 6, 15, 12, 30, 0, 0], "PREFER_DATES_FROM": "past"}]
+        for st in tpool:
+            if not st:
+                continue
+            for k in (list(st) if not ctx.quick() else rng.sample(list(st), min(2, len(st)))):
+                for la in look_alikes(k, st[k]):
+                    tw = dict(st)
+                    tw[k] = la
+                    twins.append({"settings": st, "kw": {"languages": ["en"]}, "twin": tw, "twin_api": rng.choice(["ddp", "parse"]),
+                                  "s1": rng.choice(["yesterday", "12 March", "10/11/12", "in 2 days"]),
+                                  "s2": rng.choice(["yesterday", "12 March", "10/11/12", "in 2 days", "March 2015", "2 weeks ago at 10:30"])})
+    twin_results = core.run_cases(ctx, "harness.lib", "call_live_twin", twins, chunk=40) if twins else []
     if not ctx.replay:
         # cases that share a settings dict are executed by the same worker: the library rebuilds its regex
         # caches for every new (settings, locale) pair, which dominates the cost otherwise
@@ -100,11 +135,27 @@ def run(ctx):
                         "period": r["period"], "locale": r["locale"]})
         # refinement-on-trace of every run of the absolute / no-spaces parser these calls reach (at most a few per call)
         records.extend((absfam.abs_records(i, r) + absfam.nsp_records(i, r))[:4])
+    twin_index = {}
+    for tc, tr3 in zip(twins, twin_results):
+        for j, r in enumerate(tr3):
+            tid = len(cases) + len(twin_index)
+            twin_index[tid] = (tc, j, r)
+            # the look-alike call is judged as what the library made of it: accepted -> a well-formed result, rejected -> by
+            # a documented class; the two uses of the live parser are ordinary valid calls
+            valid = True if j != 1 else (r["exc"] == "")
+            records.append({"kind": "c02", "tid": tid, "valid": valid, "api": r.get("api", "ddp"), "exc": r["exc"], "mro": r["mro"], "hasDate": bool(r["out"]),
+                            "period": r["period"], "locale": r["locale"]})
     tuples, gen = core.validate_traces(ctx, "T_C02", "SPECIFICATION TSpec\nPOSTCONDITION Consumed\nCHECK_DEADLOCK FALSE\n", records)
     seen = {}
     ndrift = 0
     for t in tuples["REJECT"]:
         _, tid, kind, verdict, exc = t[:5]
+        if tid in twin_index:
+            tc, j, r = twin_index[tid]
+            ctx.violation({"history": "p = DateDataParser(languages=['en'], settings=%r); p.get_date_data(%r); %s(%r, settings=%r)  [look-alike]; p.get_date_data(%r)" % (
+                tc["settings"], tc["s1"], tc["twin_api"], tc["s1"], tc["twin"], tc["s2"]), "failing_step": ["first use", "look-alike call", "second use"][j]},
+                verdict, expected="datetime or None / documented exception", observed={"exc": r["exc"], "msg": r.get("msg")})
+            continue
         c, r = cases[tid], results[tid]
         if kind == "abs":
             ndrift += 1
@@ -122,6 +173,7 @@ def run(ctx):
                       observed={"exc": r["exc"], "msg": r.get("msg"), "out": r["out"], "period": r["period"], "locale": r["locale"]}, extra={"full_case": c})
     ctx.notes.append({"reject_classes": {"%s|%s|%s" % k: v for k, v in seen.items()}})
     cov = {
+        "live_parser_look_alike_histories": len(twins),
         "evaluations": len(cases), "distinct_nontrivial": len({(c["s"], repr(c["kw"]), repr(c["settings"])) for c, r in zip(cases, results) if r["out"]}),
         "rule": "case = (string <= 100 chars, settings from the pool, languages / locales / region, date_formats); non-trivial = distinct call returning a datetime",
         "exhaustive": False, "states": mc.distinct, "transitions": mc.generated, "traces_validated_against_impl": len(cases),
